@@ -348,19 +348,19 @@ static void check_case(vg::Src& s, vh::Ctx& c)
         auto len = g->length();
         if (raster)
         {
-            c.expect(spc.size() == 2 && vg::biteq(spc[0], dy) && vg::biteq(spc[1], dx), "spacing", "spacing() = " + vg::describe_field(spc, 0));
+            c.expect(spc.size() == 2 && close4(spc[0], dy) && close4(spc[1], dx), "spacing", "spacing() = " + vg::describe_field(spc, 0));
             c.expect(len.size() == 2 && close4(len[0], static_cast<double>(sp.rows - 1) * dy) && close4(len[1], static_cast<double>(sp.cols - 1) * dx), "length", "length() = " + vg::describe_field(len, 0));
         }
         else
         {
-            c.expect(spc.size() == 1 && vg::biteq(spc[0], dx), "spacing", "spacing() = " + vg::describe_field(spc, 0));
+            c.expect(spc.size() == 1 && close4(spc[0], dx), "spacing", "spacing() = " + vg::describe_field(spc, 0));
             c.expect(len.size() == 1 && close4(len[0], static_cast<double>(sp.cols - 1) * dx), "length", "length() = " + vg::describe_field(len, 0));
         }
         double cell = raster ? dy * dx : dx;
         auto areas = g->areas();
         c.expect(areas.size() == m.n, "areas-size", "");
         for (size_t i = 0; i < m.n; ++i)
-            if (!vg::biteq(areas[i], cell) || !vg::biteq(g->area(i), cell))
+            if (!close4(areas[i], cell) || !close4(g->area(i), cell))
                 c.fail("cell-area", "node " + std::to_string(i) + ": area " + vg::fmt(areas[i]) + " expected " + vg::fmt(cell));
         auto shp = g->shape();
         c.expect(g->size() == m.n && (raster ? (shp.size() == 2 && shp[0] == sp.rows && shp[1] == sp.cols) : (shp.size() == 1 && shp[0] == sp.cols)), "shape", "shape()/size()");
